@@ -35,13 +35,26 @@ PROP = dict(
         "(no escapes, no surrounding whitespace) plus the malformed classes generated; encoding/json itself is not modelled",
         "TL-B: all four MsgAddress constructors are modelled at the bit level and proved equal to the TL-B slice's schema "
         "spec (tlb_bits_eq_tlb_spec); a nil *BitString / nil AddrVar pointer (Go panics) is outside this model, see C03",
-        "MatchAccountID is modelled on the first 8 address bytes read big-endian (the regenerated definition takes that "
-        "uint64 as its input); the byte read itself is covered by the correspondence (addresses with dirty lower bytes)",
+        "the regenerated MatchAccountID takes the big-endian uint64 of the first 8 address bytes as its input; the byte "
+        "read is the hand model `be64` (theorem match_account_is_prefix is on the bytes; op shard.match_acct checks it "
+        "against Go on full 32-byte addresses)",
     ],
-    partial=[],
+    partial=[
+        "JSON: json_roundtrip and the model of UnmarshalJSON cover documents \"<printable ASCII without quote and backslash>\" "
+        "only; documents with escapes (\\u0030 …) or surrounding whitespace, which encoding/json accepts, have no theorem "
+        "and are not generated",
+        "raw form with a short hex part: raw_short_hex is a theorem for an EVEN number of hex digits (whole bytes); an odd "
+        "number of digits (\"0:abc\", also zero-filled by Go) is covered by the correspondence and go.addr.roundtrip only",
+        "strings containing bytes >= 0x80 (rune-aware strings.Map / strings.ToUpper in Go): no theorem, model answers err",
+        "tongo.ParseAddress on names containing '.' (DNS resolution) is outside the model",
+        "the hand models use List.getD / take / drop after explicit length tests (fromBase64Url after len = 36, fromTL after "
+        "len >= 4, parseADNL after len = 35, rewriteAddr/be64 on the 32-byte address of a WF id): Go cannot panic at those "
+        "points; for address lists shorter than the Go array (excluded by WF in every theorem) the model reads zero bytes",
+    ],
     line_timeout="120s",   # the substitution lines do 3024 parses each; generous because checks run under heavy machine load
     level_text=(
-        "Theorems for ALL inputs (kernel-checked, no bv_decide/native_decide): shard_roundtrip, match_is_prefix "
+        "Theorems for ALL inputs (kernel-checked, no bv_decide/native_decide): shard_roundtrip + shard_roundtrip_parse_encode, "
+        "match_is_prefix and match_account_is_prefix (on the address bytes), anycast_rewrite_bytes, "
         "(prefix lengths 0..63), match_block (+ zero shard), parent_child_inverse, child_parent_inverse, "
         "child_extends_prefix, convert_shard_ident (0..63), anycast_rewrite (depths 1..30) on 64/32-bit wrap-around "
         "arithmetic; raw_roundtrip (all int32 x 256-bit), raw_short_hex (zero-fill), human_roundtrip (int8 x 4 flag "
